@@ -35,9 +35,21 @@ theorem literal_value (l : Lit) (hwf : l.wf = true) (hw : l.inWindow) (hi : l.si
 
 /-- the scanner gate accepts every grammar spelling with the grammar's kind, except the
 `si_lit`s with a superfluous leading zero -/
--- OPEN
 def literal_accepted_stmt : Prop :=
   ∀ l : Lit, l.wf = true → l.siLeadingZero = false → NumLit.parseNumUnsigned l.spell = some l.kind
+
+theorem literal_accepted : literal_accepted_stmt :=
+  fun l hwf hz => literal_accepted_aux l hwf hz
+
+/-- gate and value reader together: `compiler.parse` on a grammar spelling, inside the region
+where the implementation is right -/
+theorem literal_litValue (l : Lit) (hwf : l.wf = true) (hz : l.siLeadingZero = false)
+    (hw : l.inWindow) (hi : l.siIntegral) (hf : l.siFits prec) :
+    ∃ n, litValue l.spell = .ok n ∧ n.k = l.kind ∧ toRat n.d = l.denote := by
+  have := literal_value l hwf hw hi hf
+  unfold litValue
+  rw [literal_accepted l hwf hz]
+  exact this
 
 /-- full statement: every grammar spelling is accepted and denotes the spec's value -/
 def literal_stmt : Prop :=
